@@ -863,7 +863,8 @@ C01_NoForgedCompletion ==   \* an exchange closes only after the broker's final 
 C03_ExactlyOnceDelivery ==  \* no exactly-once message is forwarded twice
   \A i, j \in DOMAIN st.broker.delivered :
      (i # j /\ st.broker.delivered[i] = st.broker.delivered[j]) =>
-        \E k \in Writers : \E n \in DOMAIN Ops(k) : Ops(k)[n].tag = st.broker.delivered[i] /\ LevelOf(Ops(k)[n].m) = 1
+        \/ \E k \in Writers : \E n \in DOMAIN Ops(k) : Ops(k)[n].tag = st.broker.delivered[i] /\ LevelOf(Ops(k)[n].m) = 1
+        \/ \E k \in DOMAIN InitStore : k < 49152 /\ InitStore[k].tag = st.broker.delivered[i]     \* (an at-least-once transfer of a seeded store)
 C05_WireOrderIsIdOrder == \A c \in DOMAIN st.conns : Ascending(PubIds(c, 1)) /\ Ascending(PubIds(c, 2))
 \* C08: a packet is incomplete on a connection only while its writer is between the two buffers of its vectored write,
 \* or the connection has been closed because that write failed (or died with the process)
